@@ -448,7 +448,7 @@ func genC09Plan(r *zsim.Rng) *sysPlan {
 		p.Args = append(p.Args, "--layout", "reverse-list")
 	}
 	if r.Chance(1, 3) {
-		p.Args = append(p.Args, "--height", []string{"40%", "10", "5", "100%", "3", "4"}[r.Intn(6)])
+		p.Args = append(p.Args, "--height", []string{"40%", "10", "5", "100%", "3", "4", "~8", "~60%"}[r.Intn(8)])
 		p.CurRow = r.Intn(p.Rows)
 	}
 	if r.Chance(1, 6) {
@@ -461,8 +461,9 @@ func genC09Plan(r *zsim.Rng) *sysPlan {
 		p.Args = append(p.Args, "--query", []string{"ab", "a b", "abc def", "é日", "f", "  a"}[r.Intn(6)])
 	}
 	// streamed input: the producer writes the records in stages while the user is already at work
+	// (not with an adaptive height: that interface only comes up when the input is complete or fills it)
 	feeds := 0
-	if n >= 3 && (bigStream || r.Chance(1, 3)) {
+	if n >= 3 && (bigStream || r.Chance(1, 3)) && !strings.HasPrefix(argValue(p.Args, "--height"), "~") {
 		feeds = r.Range(1, 3)
 		left := n
 		for i := 0; i < feeds; i++ {
@@ -750,6 +751,13 @@ func c09Settle(r *sysRun, st *c09State, busy bool, final bool) {
 	if s == nil || busy || (s.Reading && len(r.stageLines) == 0) || !r.inputAtRest() {
 		c.count("settle.busy", 1)
 		r.sim.Logf("c09 settle %d: busy", r.settleN)
+		return
+	}
+	if r.t.window == nil {
+		// adaptive height: the interface is not up yet (it waits for enough input); keys typed meanwhile are
+		// read when it comes up, against whatever has been loaded by then
+		c.count("settle.busy", 1)
+		st.exact = false
 		return
 	}
 	m := st.model
